@@ -152,7 +152,7 @@ def start_coverage():
         return
 
     def on_line(code, line):
-        if code.co_filename.startswith(ROOT):
+        if code.co_filename.startswith(ROOT) and (code.co_flags & 0x1):  # function bodies only (CO_OPTIMIZED), not class/module bodies
             _FUNCS.setdefault((code.co_filename, code.co_qualname, code.co_firstlineno), set()).add(line)
         return mon.DISABLE
 
